@@ -304,6 +304,11 @@ func rowCondLeaves(v ssa.Value) []ssa.Value {
 	case *ssa.MakeClosure:
 		fn, _ = x.Fn.(*ssa.Function)
 	}
+	if fn != nil && fn.Synthetic != "" { // a method expression stored in the row: the method behind the thunk
+		if inner := unwrapBound(fn); len(inner) == 1 && inner[0].Blocks != nil {
+			fn = inner[0]
+		}
+	}
 	if fn != nil {
 		for _, r := range returnsOf(fn) {
 			for _, lf := range phiLeaves(returnValues(r)[0]) {
